@@ -103,8 +103,9 @@ REGISTRY: dict[str, dict] = {
                      "runtime behaviour the model cannot exhibit (claimed partial)"],
     ),
     "C18": dict(
-        modules=["C18"],
-        theorems=[T + "C18_counterexample_prefix", T + "C18_counterexample_datatype", T + "C18_counterexample_name"],
+        modules=["C18", "C03"],
+        theorems=[T + "C18_counterexample_prefix", T + "C18_counterexample_datatype", T + "C18_counterexample_name",
+                  T + "C03_triples", T + "C03_quads", T + "C03_graphs"],
         rule="SER with presets whose prefix (1..3), datatype (1..3) or name (8..26, nested quoted triples) table has between "
              "one slot more and three slots fewer than ONE statement needs, surrounded by fitting statements; real bytes judged "
              "by the Lean referee (denotation == input, or the writer raised). Non-trivial = the statement overflows a table.",
@@ -163,10 +164,13 @@ REGISTRY: dict[str, dict] = {
              "sizing predicate is cross-checked against the Lean predicate stmtFits. Non-trivial = >= 2 statements.",
     ),
     "C19": dict(
-        claimed=False,
-        modules=["C03"],
-        theorems=[T + "C03_triples"],
-        rule="SPEC audit on real bytes: redundant-entry, missed-repeat, missed-zero, split-graph counters must all be 0.",
+        modules=["C19", "C03"],
+        theorems=[T + "C19_triples", T + "C19_quads", T + "C19_graphs", T + "C19_each_name_once", T + "C03_triples"],
+        rule="SPEC audit on the REAL bytes of generic serializer cases (3 classes, all entry points, namespace declarations, "
+             "presets down to 8/0/0 and 8/1/1, frame sizes 1..250): the Lean referee's counters redundant-entry, missed-repeat, "
+             "missed-zero (and split-graph for GraphStream) must all be 0. Inputs with xsd:string-typed literals are left out "
+             "(Python == and the format disagree on whether such a literal repeats the plain one). Non-trivial = accepted "
+             "case with >= 2 statements.",
     ),
     "C02": dict(
         modules=["C03", "C04", "C15", "C07"],
